@@ -7,6 +7,7 @@ from __future__ import annotations
 
 import abc
 import argparse
+import copy
 import itertools
 import os
 import sys
@@ -138,6 +139,22 @@ class Dist(metaclass=SimpleABC):
     def create_dist(self, archives: T.List[str]) -> T.List[str]:
         pass
 
+    def script_in_staging(self, d: ExecutableSerialisation) -> ExecutableSerialisation:
+        '''The script file that runs is the one in the staging directory, not the one in the source directory.'''
+        for i, arg in enumerate(d.cmd_args[:2]):
+            if not os.path.isabs(arg):
+                continue
+            rel = os.path.relpath(arg, self.src_root)
+            if rel.startswith('..') or not os.path.relpath(arg, self.bld_root).startswith('..'):
+                continue
+            staged = os.path.join(self.distdir, rel)
+            if not os.path.isfile(staged):
+                sys.exit(f'Dist script {rel!r} is not in the staging directory (it must be part of the latest commit).')
+            d = copy.copy(d)
+            d.cmd_args = d.cmd_args[:i] + [staged] + d.cmd_args[i + 1:]
+            break
+        return d
+
     def run_dist_scripts(self) -> None:
         assert os.path.isabs(self.distdir)
         mesonrewrite = Environment.get_build_command() + ['rewrite']
@@ -153,6 +170,7 @@ class Dist(metaclass=SimpleABC):
             env['MESON_PROJECT_DIST_ROOT'] = os.path.join(self.distdir, subdir)
             env['MESON_PROJECT_SOURCE_ROOT'] = os.path.join(self.src_root, subdir)
             env['MESON_PROJECT_BUILD_ROOT'] = os.path.join(self.bld_root, subdir)
+            d = self.script_in_staging(d)
             name = ' '.join(d.cmd_args)
             print(f'Running custom dist script {name!r}')
             try:
